@@ -82,7 +82,10 @@ class RecThreadingApp(ThreadingApplication):
                    e2e=m.header.end_to_end_identifier, appid=m.header.application_id)
         b = self.behaviour(m) if callable(self.behaviour) else self.behaviour
         if b == "slow":
+            me = threading.current_thread()
+            self.h.blocked_ok.add(me)        # deliberately blocked: not counted against quiescence
             self.release.wait(10)
+            self.h.blocked_ok.discard(me)
             b = "answer"
         if b == "answer":
             ans = self.generate_answer(m, 2001)
